@@ -646,8 +646,8 @@ def _eq(run, P):
     eq = base.methods.get("__eq__")
     hs = base.methods.get("__hash__")
     ok = eq is not None and hs is not None \
-        and "type(self) is type(other)" in ast.unparse(eq.node) \
-        and "self.__getinitargs__() == other.__getinitargs__()" in ast.unparse(eq.node) \
+        and f"type(self) is type({eq.arg(0)})" in ast.unparse(eq.node) \
+        and f"self.__getinitargs__() == {eq.arg(0)}.__getinitargs__()" in ast.unparse(eq.node) \
         and "self.__getinitargs__()" in ast.unparse(hs.node) and "type(self)" in ast.unparse(hs.node)
     run.ob("C14.eq", base, eq.node if eq else base.node, ok,
            construct="SymbolKind.__eq__/__hash__: same class and equal __getinitargs__()",
